@@ -431,17 +431,17 @@ class C14(Prop):
             elif s["gt"]:
                 sure += 1
         same_idx = sig_ok and all(c[0] == rep["idx"] for c in rec.calls)
-        model = {"r": r, "p": float(g("p")) if sig_ok else None, "perm_args_equal_idx": True, "n_perm_calls": n,
+        # the property fixes r, "a fraction in [0, 1]" of the n shuffles and the untouched arguments; which side of r is
+        # counted is the mechanism's choice (rs > r) and is compared with the model only
+        model = {"r": r, "p_count_in": [sure, sure + near], "perm_args_equal_idx": True, "n_perm_calls": n,
                  "images_unchanged": True, "mask_unchanged": True}
-        spec = {"r": r, "p_in_[0,1]": True, "p_count_in": [sure, sure + near], "images_unchanged": True, "mask_unchanged": True}
+        spec = {"r": r, "p_is_fraction_of_n_in_[0,1]": True, "images_unchanged": True, "mask_unchanged": True}
         ok = "raises" not in impl and impl["images_unchanged"] and impl["mask_unchanged"]
         if ok:
-            ok = abs(impl["r"] - r) <= tol and 0.0 <= impl["p"] <= 1.0
-        spec_ok = ok
-        if ok and sig_ok:
             k = impl["p"] * n
-            spec_ok = abs(k - round(k)) < 1e-9 and sure <= round(k) <= sure + near
-        model_ok = spec_ok and sig_ok and same_idx
+            ok = abs(impl["r"] - r) <= tol and 0.0 <= impl["p"] <= 1.0 and abs(k - round(k)) < 1e-9
+        spec_ok = ok
+        model_ok = ok and sig_ok and same_idx and sure <= round(impl["p"] * n) <= sure + near
         impl["n_perm_calls"] = len(rec.calls)
         impl["perm_args_equal_idx"] = same_idx
         if len(rep["idx"]) >= 2:
